@@ -130,7 +130,7 @@ PROPS["C19"] = dict(
     assumptions=["peers without RFC 5746 support are not simulated (both endpoints are BearSSL); declined renegotiation is exercised through BR_OPT_NO_RENEGOTIATION",
                  "documented upstream behaviours are not failures: data arriving during a renegotiation is refused with BR_ERR_UNEXPECTED, a received no_renegotiation is fatal for the receiver",
                  "known finding F4 (client renegotiation with unflushed plaintext) is constructed away and counted"],
-    targets=[dict(name="c19_closure", src="c19_closure.cpp", flavour="san", libs=SSL_LIBS, noseed=True),
+    targets=[dict(name="c19_closure", src="c19_closure.cpp", flavour="san", libs=SSL_LIBS + MBED_LIBS, noseed=True),
              dict(name="c19_sslio", src="c19_sslio.cpp", flavour="san", libs=SSL_LIBS, noseed=True)],
     quick=[("c19_closure", "enum", dict(shards=16)),
            ("c19_closure", "rc", dict(cases=6400, shards=16)),
